@@ -2104,8 +2104,12 @@ impl Scenario for Faults {
             if matches!(name, "tdh_continuation_cleared" | "tdh_continuation_mismatch") {
                 cfg.p_split = 600;
             }
-            if matches!(name, "tdh_bc_decreasing" | "tdh_id_choice_state") {
+            if matches!(name, "tdh_bc_decreasing" | "tdh_id_choice_state" | "tdh_reserved_choice_state") {
                 cfg.triggers = (2, 4);
+            }
+            if name.ends_with("_continuation") {
+                cfg.p_split = 600;
+                cfg.data_pages = (2, 4);
             }
             if matches!(name, "tdh_bc_vs_rdh" | "tdh_trigger_vs_rdh") {
                 cfg.triggers = (1, 1);
